@@ -14,9 +14,9 @@ import (
 // is slower than measured cannot starve the parts after it (safety net only: the bounds
 // are sized so that no part is cut).
 func c20Slice(e explore.Env) explore.Env {
-	s := 40 * time.Second
+	s := 30 * time.Second
 	if e.Thorough() {
-		s = 170 * time.Second
+		s = 120 * time.Second
 	}
 	if d := time.Now().Add(s); e.Deadline.IsZero() || d.Before(e.Deadline) {
 		e.Deadline = d
@@ -105,11 +105,11 @@ func c20CapCfg(reno bool, dq, dt int) func(bool) *c20Cfg {
 
 func TestVerifC20Cc(t *testing.T) {
 	explore.Main("C20", []explore.Part{
-		c20Part("reno-window", c20WinCfg(true, 4, false, 8, 10)),
-		c20Part("cubic-window", c20WinCfg(false, 4, false, 8, 9)),
+		c20Part("reno-window", c20WinCfg(true, 4, false, 8, 9)),
+		c20Part("cubic-window", c20WinCfg(false, 4, false, 7, 8)),
 		c20Part("reno-window3", c20WinCfg(true, 3, false, 7, 9)),
-		c20Part("reno-window8", c20WinCfg(true, 8, true, 7, 9)),
-		c20Part("cubic-window8", c20WinCfg(false, 8, true, 7, 8)),
+		c20Part("reno-window8", c20WinCfg(true, 8, true, 7, 8)),
+		c20Part("cubic-window8", c20WinCfg(false, 8, true, 6, 7)),
 		c20Part("reno-pacer", c20PacerCfg(true, 4, 5, 6)),
 		c20Part("cubic-pacer", c20PacerCfg(false, 4, 5, 6)),
 		c20Part("reno-cap", c20CapCfg(true, 6, 8)),
